@@ -44,6 +44,10 @@ func worldSpec() map[string]spec.V {
 		"pst":  {K: "pstruct", M: map[string]spec.V{"Name": sv("string", "Bob")}},
 		"np":   {K: "nilptr"},
 		"ns":   {K: "nilS"},
+		"nsl":  {K: "nilstrs"},   // []string(nil)
+		"nmp":  {K: "nilmap"},    // map[string]interface{}(nil)
+		"nmi":  {K: "nilmapint"}, // map[string]int(nil)
+		"t0":   {K: "time", S: "0001-01-01T00:00:00Z"},
 		"fn0":  {K: "func", F: &spec.Fn{Name: "fn0", Ret: "int", RetS: "7"}},
 		"fnS":  {K: "func", F: &spec.Fn{Name: "fnS", Params: []string{"string"}, Ret: "arg0"}},
 		"fnI":  {K: "func", F: &spec.Fn{Name: "fnI", Params: []string{"int"}, Ret: "arg0"}},
